@@ -1,6 +1,22 @@
-"""minimysql - an in-memory interpreter for the MySQL 8 dialect subset used by the Hail Batch service."""
-from .engine import Engine, Session, Result, ResultSet  # noqa: F401
+"""minimysql - an in-memory interpreter for the MySQL 8 dialect subset used by the Hail Batch service.
+
+Quick start::
+
+    from vlib.minimysql import Engine, schema, driver
+    eng = schema.new_batch_engine()            # Batch tables + routines/triggers from the migration chain + seed rows
+    driver.install(); driver.set_engine(eng)   # fake `pymysql` / `aiomysql` modules now talk to `eng`
+    s = eng.connect(); s.query('SELECT * FROM globals')     # direct synchronous access for harnesses
+
+Knobs on Engine: ``rand_source`` (RAND()), ``clock`` (UTC_DATE/NOW/UNIX_TIMESTAMP), ``on_transaction_start`` (async hook
+awaited before a session starts a transaction), ``fault_hook(session, phase, sql)``,
+``insert_select_same_table_buffered`` and ``multi_update_on_the_fly`` (documented MySQL execution-strategy corners),
+``fork()`` (cheap copy of schema+data).
+
+Anything outside the implemented subset raises ``minimysql.NotSupported``.
+Self-test: ``cd /verif && PYTHONPATH=/verif /venv/bin/python -m vlib.minimysql.selftest``.
+"""
+from .engine import Engine, Session, Result, ResultSet, dict_rows  # noqa: F401
 from .errors import NotSupported  # noqa: F401
 from . import driver, errors  # noqa: F401
 
-__all__ = ['Engine', 'Session', 'NotSupported', 'driver', 'errors']
+__all__ = ['Engine', 'Session', 'NotSupported', 'driver', 'errors', 'dict_rows']
